@@ -195,8 +195,8 @@ def check_tensor(case):
         if b["k"] == "box" and b["dom"] and specs.skey_ty(
                 b["dom"]) == specs.skey_ty(b["cod"]):
             one = {"cls": "tensor", "dom": b["dom"], "layers": [[b, 0]]}
-            f = specs.build(one)
-            both = (f + f[::-1]).eval()
+            f = specs.box("tensor", b)   # the bare box, not a diagram
+            both = (f + f.dagger()).eval()
             exp = classes.tensor_ref_eval(one) + classes.tensor_ref_eval(
                 specs.spec_dagger(one))
             check_eval(both, exp, dims, b["dom"], b["cod"], "sum-with-dagger",
